@@ -76,6 +76,11 @@ GUARDS = {
     # occupant: MalformedTransform('versioning no contents') after the shelf file was already
     # written, or the deletion silently stays in the tree
     "delete_at_reoccupied_path": True,
+    # a shelf that deletes an entry and adds a new entry (new file id) under the same parent
+    # and name: the preview tree of the shelf transform answers path2id(that path) with None
+    # (it finds the deleted entry's trans id), so unshelve raises NoSuchFile from
+    # Merge3Merger._entries3 -> find_previous_path
+    "add_at_deleted_name": True,
 }
 ASSUMPTIONS = [
     "bzr (2a) trees only: git working trees raise ShelvingUnsupported",
@@ -208,6 +213,11 @@ def text_for(op, old):
 
 
 def m_apply(model, op):
+    if op["o"] == "chmod" and op["p"] in model.inv:
+        # entries whose exec bit was ever changed by the user (see GUARDS exec_stale)
+        if not hasattr(model, "xt"):
+            model.xt = set()
+        model.xt.add(model.inv[op["p"]][0])
     if op["o"] == "write" and "tx" in op:
         old = model.disk.get(op["p"])
         data = text_for(op, old[1] if old and old[0] == FILE else None)
@@ -295,6 +305,11 @@ def shelve_model(m, sel, hunks, guards):
         n["fid"], n["ver"] = fid, True
         byid[fid] = n
     place = []  # (node, parent fid, name)
+    if "add_at_deleted_name" in guards:
+        gone = {(m.basis[T.parent(bids[f])][0], _name(bids[f])) for t, f in sel if t == "delete"}
+        for t, f in sel:
+            if t == "add" and (m.inv[T.parent(wids[f])][0], _name(wids[f])) in gone:
+                raise Unmodelled("new entry at the place of a deleted one", "add_at_deleted_name")
 
     def exec_guard(lost):
         if lost and "exec_lost" in guards:
@@ -352,7 +367,7 @@ def shelve_model(m, sel, hunks, guards):
             n["kind"], n["data"], n["exec"] = bkind, bdata, False
         elif typ == "text":
             n = byid[fid]
-            if (n["exec"] or bexec) and "exec_stale" in guards:
+            if (n["exec"] or bexec or fid in getattr(m, "xt", ())) and "exec_stale" in guards:
                 raise Unmodelled("text change of an executable file", "exec_stale")
             if fid in hunks:
                 regs = changed_regions(bdata, n["data"])
@@ -482,8 +497,15 @@ def after_shelve(m, sel, hunks, guards):
     if not forward_valid(m, sel):
         raise Unmodelled("basis + selection is no tree")
     disk, inv = shelve_model(m, sel, hunks, guards)
-    m2 = m.copy()
+    m2 = mcopy(m)
     m2.disk, m2.inv = disk, inv
+    return m2
+
+
+def mcopy(m):
+    m2 = m.copy()
+    if hasattr(m, "xt"):
+        m2.xt = m.xt  # only grows while the history is applied, before any shelving
     return m2
 
 
@@ -660,7 +682,7 @@ def choose_selection(rng, m, guards):
 
 def gen_script(rng, model, guards, fault):
     """The shelf script, simulated on copies of the model."""
-    m = model.copy()
+    m = mcopy(model)
     script = []
     stack = []  # [id, clean]
     nsteps = rng.randint(2, 7)
